@@ -180,12 +180,142 @@ def clause_d(facts4, rep):
     rep.require(n >= 1, 'C14.d: findMemberImpl(ptr, len) not found in the dynamic-dispatch build')
 
 
+SIGNED_CMP = ('_mm256_cmpgt_epi8', '_mm_cmpgt_epi8', '_mm_cmplt_epi8', '_mm256_cmpgt_epi16', '_mm_cmpgt_epi16', '_mm_cmplt_epi16')
+
+
+def clause_e(facts, rep, namespaces=('::avx2::', '::sse::'), min_returns=6):
+    """The three-way comparison orders keys as memcmp does: by the first differing byte, as UNSIGNED bytes, left
+    minus right.  For every return of the three-way family (InlinedMemcmp and its short-length helper):
+    0, a forwarded memcmp / family call with the operands in order, or  L[i] - R[i]  /  (L[i] < R[i]) ? neg : pos
+    of two unsigned-byte loads at the same index, L derived from the first pointer parameter and R from the second.
+    A sign obtained from a signed vector compare (pcmpgtb) orders bytes >= 0x80 below ASCII, which makes the
+    lookup-map comparator inconsistent between its short and long paths."""
+    n = 0
+    for f in facts.functions:
+        if f.short not in ('InlinedMemcmp', 'cmp_lt_32') or not any(ns in f.qn + '::' or ns in f.qn for ns in namespaces):
+            continue
+        if f.d.get('ret_t') not in ('int',):
+            continue
+        rep.fn(f)
+        defs = {}
+        for bid, i, s_ in f.stmts():
+            st = strip(s_)
+            if st is None:
+                continue
+            if st.get('k') == 'decl':
+                for vd in st['vars']:
+                    if vd.get('init') is not None:
+                        defs.setdefault(vd['id'], []).append(vd['init'])
+            if st.get('k') == 'bin' and st['op'] == '=' and strip(st['l']) is not None and strip(st['l']).get('k') == 'ref':
+                defs.setdefault(strip(st['l'])['id'], []).append(st['r'])
+        pidx = {p_['id']: k for k, p_ in enumerate(f.params)}
+
+        def base_param(e, depth=0):
+            """index of the pointer parameter a pointer expression is derived from"""
+            e = strip(e)
+            while e is not None and depth < 12:
+                depth += 1
+                k = e.get('k')
+                if k in ('cast', 'paren'):
+                    e = strip(e['e'])
+                elif k == 'bin' and e['op'] in ('+', '-'):
+                    e = strip(e['l'])
+                elif k == 'ref':
+                    if e['id'] in pidx:
+                        return pidx[e['id']]
+                    ds = defs.get(e['id'])
+                    if ds and len(ds) == 1:
+                        e = strip(ds[0])
+                    else:
+                        return None
+                else:
+                    return None
+            return None
+
+        def byte_load(e):
+            """(param index, index text) for an unsigned byte load L[i] / *(L+i)"""
+            e0 = e
+            e = strip(e)
+            if e is None:
+                return None
+            if e.get('k') == 'sub':
+                t = (e.get('t') or '')
+                if t.replace('const ', '') not in ('uint8_t', 'unsigned char'):
+                    return ('signed', t)
+                return (base_param(e['base']), show(e.get('idx') or e.get('index') or {}))
+            return None
+
+        def provenance_calls(e, depth=0, seen=None):
+            seen = seen if seen is not None else set()
+            out = set()
+            for y in walk(e):
+                if y.get('k') == 'call' and y.get('cname'):
+                    out.add(y['cname'])
+                    g = facts.by_id.get(y.get('cid'))
+                    if g is not None and g.id != f.id and depth < 3 and g.id not in seen:
+                        # a helper of the library: everything its body calls contributes to the result
+                        seen.add(g.id)
+                        for _, _, _, z in g.walk():
+                            if z.get('k') == 'call' and z.get('cname'):
+                                out.add(z['cname'])
+                if y.get('k') == 'ref' and y.get('id') in defs and y['id'] not in seen and depth < 6:
+                    seen.add(y['id'])
+                    for d in defs[y['id']]:
+                        out |= provenance_calls(d, depth + 1, seen)
+            return out
+        for bid, i, s_ in f.stmts():
+            st = strip(s_)
+            if st is None or st.get('k') != 'ret' or M_unreachable(f, bid):
+                continue
+            v = strip(st.get('e'))
+            n += 1
+            if cval(st.get('e')) == 0:
+                rep.ok('E5.unsigned-order', '%s: return 0 (equal)' % f.qn, locline(st['loc']))
+                continue
+            ok, why = None, ''
+            if v is not None and v.get('k') == 'call' and v.get('cname') in ('memcmp', '__builtin_memcmp', 'cmp_lt_32', 'InlinedMemcmp'):
+                a = v.get('args', [])
+                ok = len(a) >= 2 and base_param(a[0]) == 0 and base_param(a[1]) == 1
+                why = 'operands forwarded in order (first, second)'
+            elif v is not None and v.get('k') == 'bin' and v['op'] == '-':
+                l, r = byte_load(v['l']), byte_load(v['r'])
+                if l and r and l[0] != 'signed' and r[0] != 'signed':
+                    ok = (l[0], r[0]) == (0, 1) and l[1] == r[1]
+                    why = 'difference of unsigned bytes, left minus right at the same index (got operands %s, %s)' % (l, r)
+                elif l and r:
+                    ok = False
+                    why = 'byte loads through a signed element type %s' % ([x for x in (l, r) if x[0] == 'signed'],)
+            elif v is not None and v.get('k') == 'cond':
+                c = strip_expect(v['c'])
+                if c is not None and c.get('k') == 'bin' and c['op'] in ('<', '>'):
+                    l, r = byte_load(c['l']), byte_load(c['r'])
+                    tv, ev_ = cval(v['then']), cval(v['else'])
+                    if l and r and l[0] != 'signed' and r[0] != 'signed' and tv is not None and ev_ is not None:
+                        less_when_true = (c['op'] == '<') == ((l[0], r[0]) == (0, 1))
+                        ok = l[1] == r[1] and {l[0], r[0]} == {0, 1} and ((tv < 0 < ev_) if less_when_true else (ev_ < 0 < tv))
+                        why = 'sign chosen by an unsigned byte comparison'
+            if ok is None:
+                prov = provenance_calls(st.get('e'))
+                if prov & set(SIGNED_CMP):
+                    ok = False
+                    why = 'the sign is derived from a SIGNED vector byte compare (%s): bytes >= 0x80 would order below ASCII, unlike memcmp' % sorted(prov & set(SIGNED_CMP))
+                else:
+                    raise AnalysisBroken('C14.e: return expression %s of %s has an unrecognised shape' % (show(st), f.qn))
+            rep.check(ok, 'E5.unsigned-order', f.qn, show(st)[:80], locline(st['loc']), why, facts.config)
+    rep.require(n >= min_returns, 'C14.e: only %d returns of the three-way compare family found' % n)
+
+
+def M_unreachable(f, bid):
+    return False
+
+
 def run(rep, tier):
     facts = get_facts('K1')
     rep.unit(facts)
     clause_a(facts, rep, False)
     clause_b(facts, rep, tier)
     n = clause_c(facts, rep)
+    clause_e(facts, rep, ('::avx2::',))
     rep.require(n >= 2, 'C14.c: lookup / comparator sites found: %d' % n)
     facts2 = get_facts('K2')
     rep.unit(facts2)
@@ -195,8 +325,11 @@ def run(rep, tier):
     clause_d(facts4, rep)
     if tier == 'thorough':
         clause_b(facts2, rep, tier)
+        facts3 = get_facts('K3')
+        rep.unit(facts3)
+        clause_e(facts3, rep, ('::sse::',), min_returns=1)
     rep.trust('clang 14 front end', 'Intel semantics of loadu / cmpeq / movemask / and / BZHI (keeps the low n bits)', 'page size 4096')
     rep.assumptions += [
         'decides the page guard, bounds and byte coverage of InlinedMemcmpEq / InlinedMemcmp on the all-equal path for every length up to the stated bound, the length guards of the lookup and the comparator shape',
-        'does NOT decide the sign of the three-way result nor mismatch localisation (value level)',
+        'the three-way result is taken from unsigned bytes in left-minus-right order at every return (shape rule); mismatch localisation (which index) is value level and not decided',
     ]
